@@ -52,6 +52,7 @@ def run(c):
     if not c.quick:
         sens = [({"PinsUser": False}, "SwitchEnds|UserPinned|OneUser"), ({"CapOffset": 1}, "CapRespected"),
                 ({"RekeyResetsAuthState": True}, "UserPinned|CapRespected|OneUser"),
+                ({"ServiceRequestResets": True}, "UserPinned|CapRespected|OneUser"),
                 ({"PartialCounts": True}, "CapExact")]
         c.mc_holds("ServerAuth", A.mc_cfg(A.consts(FailCap=10, MaxDepth=14)), name="real cap, full alphabet, 13 messages", workers=2, env=A.JVM)
     for sw, inv in sens:
@@ -89,6 +90,19 @@ def run(c):
         if w["alive"] and not w["authenticated"] and w["mode"] == "plain" and pinned(w) == prim:
             classes.setdefault((w["cfg"], w["failCount"]), w)
     pinnedw = list(classes.values())
+    sreq = A.clean({"k": "service_request", "service": "ssh-userauth"})
+    # SERVICE_REQUEST again in the middle of the dialogue, as paramiko's classic client sends it before every attempt
+    for i, w in enumerate(pinnedw[:3 if c.quick else len(pinnedw)]):
+        seq = w["hist"] + [sreq, req(other, "ok"), req(prim, "ok")]
+        jobs.append({"bursts": A.single(seq), "opts": A.cfg_opts(w["cfg"]), "key": "sreq-switch|" + w["cfg"] + A.seq_key(seq),
+                     "names": A.DEFAULT_NAMES, "sample": i == 0})
+    for i, w in enumerate(near[:2 if c.quick else len(near)]):
+        seq = w["hist"] + [sreq] + [req(prim, "fail")] * 4
+        jobs.append({"bursts": A.single(seq), "opts": {}, "key": "sreq-cap|" + A.seq_key(seq), "names": A.DEFAULT_NAMES})
+    for bursty in (False, True):
+        seq = [sreq, req(prim, "fail")] * 12 + [sreq, req(other, "ok")]
+        jobs.append({"bursts": [seq] if bursty else A.single(seq), "opts": {}, "key": "sreq-classic|%s" % bursty,
+                     "names": A.DEFAULT_NAMES})
     for i, w in enumerate(pinnedw[:3 if c.quick else len(pinnedw)]):
         for who in (("client", "server")[i % 2:][:1] if c.quick else ("client", "server")):
             seq = w["hist"] + [A.clean({"k": "rekey", "tok": who}), req(other, "ok"), req(prim, "ok")]
